@@ -349,7 +349,41 @@ def build_std(t):
         return val, '(std partial %s %s (%s) (%s))' % (
             cls_sx(functools.partial), fsx, ' '.join(sx for _, sx in args),
             ' '.join('((%s) %s)' % (cps(kw), sx) for kw, (_, sx) in kws))
+    if kind == 'uuid':
+        import uuid
+        val = uuid.UUID(int=t[2])
+        return val, '(std uuid %s (%s))' % (cls_sx(uuid.UUID), cps(str(val)))
+    if kind == 'namespace':
+        attrs = [(k, build(x)) for k, x in t[2]]
+        val = types.SimpleNamespace()
+        for k, (v, _sx) in attrs:          # insertion order = order of the pairs
+            setattr(val, k, v)
+        names = [k for k, _ in attrs]
+        order = [names.index(k) for k in sorted(names)]
+        return val, '(std namespace %s (%s) (%s))' % (
+            cls_sx(types.SimpleNamespace), ' '.join('((%s) %s)' % (cps(k), sx) for k, (_, sx) in attrs),
+            ' '.join(str(i) for i in order))
+    if kind == 'namedtuple':
+        fields = [(k, build(x)) for k, x in t[3]]
+        cls = namedtuple_class(t[2], tuple(k for k, _ in fields))
+        val = cls(*[v for _k, (v, _sx) in fields])
+        return val, '(std namedtuple %s (%s))' % (cls_sx(cls), ' '.join('((%s) %s)' % (cps(k), sx) for k, (_, sx) in fields))
     raise ValueError(t)
+
+
+_nt_classes = {}
+
+
+def namedtuple_class(name, fields):
+    import collections
+    key = (name, fields)
+    if key not in _nt_classes:
+        cls = collections.namedtuple(name, fields)
+        cls.__module__ = 'valgen'
+        cls.__qualname__ = '%s_%d' % (name, len(_nt_classes))
+        setattr(sys.modules[__name__], cls.__qualname__, cls)
+        _nt_classes[key] = cls
+    return _nt_classes[key]
 
 
 def rand_std(r):
@@ -363,7 +397,16 @@ def rand_std(r):
 
     def pairs(n=None):
         return [(key(), val()) for _ in range(r.randint(0, 5) if n is None else n)]
-    kind = r.choice(['ordered', 'deque', 'default', 'counter', 'chain', 'proxy', 'exc', 'partial'])
+    kind = r.choice(['ordered', 'deque', 'default', 'counter', 'chain', 'proxy', 'exc', 'partial', 'uuid', 'namespace',
+                     'namedtuple'])
+    if kind == 'uuid':
+        return ('std', 'uuid', r.choice([0, 7, 2 ** 128 - 1, r.getrandbits(128)]))
+    if kind == 'namespace':
+        names = r.sample(['b', 'a', 'zz', 'ctx', 'fn', 'value', 'long_attribute_name', 'B', '_p'], r.randint(0, 4))
+        return ('std', 'namespace', [(k, val()) for k in names])
+    if kind == 'namedtuple':
+        names = r.sample(['x', 'y', 'name', 'ctx', 'fn', 'items', 'a1'], r.randint(1, 4))
+        return ('std', 'namedtuple', r.choice(['Point', 'Rec']), [(k, val()) for k in names])
     if kind == 'ordered':
         return ('std', 'ordered', pairs())
     if kind == 'deque':
